@@ -147,3 +147,8 @@ Proof. vm_compute. split; reflexivity. Qed.
 
 Lemma ex1_v_nils_typed : has_ty (ps_env ex1) (VPtr ex1_v_nils) (TPtr (TNamed PSrc "T")).
 Proof. apply (has_ty_b_sound _ 8). vm_compute. reflexivity. Qed.
+
+Lemma ex5_nil_receiver :
+  run_from ex5 VNil (VPtr ex5_d) = Panic
+  /\ (exists s, run_from ex5 (VPtr ex5_dirty) (VPtr ex5_d) = Ok (VPtr s)).
+Proof. split; [vm_compute; reflexivity | eexists; vm_compute; reflexivity]. Qed.
